@@ -115,8 +115,8 @@ Definition log := list entry.
 
 Inductive call_result :=
 | CallOk (r : json)
-| CallTypeError (msg_ok : bool)
-| CallOther (msg_ok : bool)
+| CallTypeError (data : option json)   (* the error data {type, message, traceback}; None: not serialisable *)
+| CallOther (data : option json)
 | CallUnserializable.
 
 Definition DOT : Z := 46.
@@ -172,7 +172,7 @@ Definition get_method (ms : mounts) (path : str) : target :=
 
 Inductive payload :=
 | PResult (r : json)
-| PError (code : Z)
+| PError (code : Z) (data : json)
 | PBad.       (* a result, or an error message, that the JSON serialiser rejects *)
 
 Record resp := mkResp { rs_id : option rid; rs_payload : payload }.
@@ -203,6 +203,12 @@ Definition E_NOT_FOUND : Z := -32601.
 Definition E_PARAMS : Z := -32602.
 Definition E_APP : Z := 0.
 
+(* error data the wrapper itself produces: a text (not modelled: JNull stands for "some
+   string or list of strings"), or the description of the TypeError of calling a non-callable *)
+Definition d_text : json := JNull.
+Definition d_not_callable : json := JObj [(lit "type", JStr (lit "TypeError"))].
+Definition d_unserializable : json := JObj [(lit "type", JStr (lit "PydanticSerializationError"))].
+
 Section Wrapper.
   Variable v : version.
   Variable pok : params -> bool.
@@ -219,20 +225,20 @@ Section Wrapper.
 
   Definition handle_single (l : log) (j : json) : sres * log :=
     match validate vpok j with
-    | VInvalidReq => (SResp (mkResp None (PError E_INVALID)), l)
+    | VInvalidReq => (SResp (mkResp None (PError E_INVALID d_text)), l)
     | VPydanticErr =>
-        if v_catch_validation v then (SResp (mkResp None (PError E_INVALID)), l)
+        if v_catch_validation v then (SResp (mkResp None (PError E_INVALID d_text)), l)
         else (SEscape EValidation, l)
     | VOk rq =>
         match get_method ms (r_method rq) with
-        | TNotFound => (answer rq (PError E_NOT_FOUND), l)
-        | TPlain => (answer rq (PError E_PARAMS), l)
+        | TNotFound => (answer rq (PError E_NOT_FOUND d_text), l)
+        | TPlain => (answer rq (PError E_PARAMS d_not_callable), l)
         | TCall e =>
             let l' := l ++ [e] in
             match call l e (r_params rq) with
             | CallOk r => (answer rq (PResult r), l')
-            | CallTypeError ok => (answer rq (if ok then PError E_PARAMS else PBad), l')
-            | CallOther ok => (answer rq (if ok then PError E_APP else PBad), l')
+            | CallTypeError d => (answer rq (match d with Some x => PError E_PARAMS x | None => PBad end), l')
+            | CallOther d => (answer rq (match d with Some x => PError E_APP x | None => PBad end), l')
             | CallUnserializable => (answer rq PBad, l')
             end
         end
@@ -258,7 +264,7 @@ Section Wrapper.
 
   Definition handle_data (j : json) : pres doc * log :=
     match j with
-    | JArr [] => (POk (DSingle (mkResp None (PError E_INVALID))), [])
+    | JArr [] => (POk (DSingle (mkResp None (PError E_INVALID d_text))), [])
     | JArr js =>
         match run_batch [] js with
         | (POk [], l) => (POk DNothing, l)
@@ -290,8 +296,8 @@ Section Wrapper.
     else if code =? E_PARAMS then lit "Invalid params"
     else lit "Application error".
 
-  Definition error_obj (code : Z) : json :=
-    JObj [(k_code, JInt code); (k_message, JStr (message_of code)); (k_data, JNull)].
+  Definition error_obj (code : Z) (data : json) : json :=
+    JObj [(k_code, JInt code); (k_message, JStr (message_of code)); (k_data, data)].
 
   Definition payload_bad (r : resp) : bool :=
     match rs_payload r with PBad => true | _ => false end.
@@ -301,8 +307,8 @@ Section Wrapper.
   Definition wire (r : resp) : json :=
     match rs_payload r with
     | PResult x => JObj [(k_jsonrpc, JStr s_2_0); (k_id, wire_id (rs_id r)); (k_result, x)]
-    | PError c => JObj [(k_jsonrpc, JStr s_2_0); (k_id, wire_id (rs_id r)); (k_error, error_obj c)]
-    | PBad => JObj [(k_jsonrpc, JStr s_2_0); (k_id, wire_id (rs_id r)); (k_error, error_obj E_APP)]
+    | PError c d => JObj [(k_jsonrpc, JStr s_2_0); (k_id, wire_id (rs_id r)); (k_error, error_obj c d)]
+    | PBad => JObj [(k_jsonrpc, JStr s_2_0); (k_id, wire_id (rs_id r)); (k_error, error_obj E_APP d_unserializable)]
     end.
 
   Inductive outcome :=
@@ -323,7 +329,7 @@ Section Wrapper.
 
   Definition handle_json (i : input) : outcome * log :=
     match i with
-    | ParseFail => (dump (DSingle (mkResp None (PError E_PARSE))), [])
+    | ParseFail => (dump (DSingle (mkResp None (PError E_PARSE JNull))), [])
     | Parsed j =>
         match handle_data j with
         | (POk d, l) => (dump d, l)
@@ -355,7 +361,7 @@ End Wrapper.
    the error code (message and data texts are not compared). *)
 Inductive robs :=
 | RoResult (id r : json)
-| RoError (id : json) (code : Z)
+| RoError (id : json) (code : Z) (data : json)
 | RoMalformed.
 
 Definition robs_of_json (j : json) : robs :=
@@ -365,7 +371,7 @@ Definition robs_of_json (j : json) : robs :=
       | Some i, Some r, None => RoResult i r
       | Some i, None, Some (JObj e) =>
           match lookup k_code e with
-          | Some (JInt c) => RoError i c
+          | Some (JInt c) => RoError i c (match lookup k_data e with Some d => d | None => JNull end)
           | _ => RoMalformed
           end
       | _, _, _ => RoMalformed
@@ -373,10 +379,26 @@ Definition robs_of_json (j : json) : robs :=
   | _ => RoMalformed
   end.
 
+(* the members the model states about the error data (the exception class name, the message
+   of a recorded exception) must be there; texts the model does not state are not compared *)
+Definition data_agrees (model impl : json) : bool :=
+  match model with
+  | JObj m =>
+      match impl with
+      | JObj im => forallb (fun kv => match lookup (fst kv) im with
+                                      | Some x => json_equiv (snd kv) x
+                                      | None => false
+                                      end) m
+      | _ => match m with [] => true | _ => false end
+      end
+  | _ => true
+  end.
+
+(* first argument: the model's observation *)
 Definition robs_eqb (a b : robs) : bool :=
   match a, b with
   | RoResult i r, RoResult i' r' => json_eqb i i' && json_equiv r r'
-  | RoError i c, RoError i' c' => json_eqb i i' && (c =? c')
+  | RoError i c d, RoError i' c' d' => json_eqb i i' && (c =? c') && data_agrees d d'
   | _, _ => false
   end.
 
